@@ -411,6 +411,49 @@ def run(tier, seed, lean):
     return {'coverage': cov, 'violations': violations, 'broken': broken}
 
 
+def name_reuse_scenarios(tag, rr):
+    """a name used again for another description: grammars created afterwards see the grammar that is installed under the name
+    now, grammars created before keep theirs; compiling a description again gives what it gives under fresh names"""
+    bad = []
+    n = 0
+    def outcome(mod, entry, text):
+        f = mod.parse if entry is None else getattr(getattr(mod, entry, None), 'parse', None)
+        if f is None:
+            return ('X', f'no entry {entry}')
+        return rr.run_real_api(f, text, 0, True)[0]
+    base1 = 'grammar {p}base\nstart = Item*\nItem = Word\nWord = /[a-z]+/\n'
+    base2 = 'grammar {p}base\nstart = Item*\nItem = Word\nWord = /[a-z]+/\nNum = /[0-9]+/ |> `int`\nignore / +/\n'
+    child = 'grammar {p}child extends {p}base\noverride Item = Pair | super.Item\nPair = [Word << ":", Word]\n'
+    second = 'grammar {p}second extends {p}base\noverride Item = Num | super.Item\nTwo = [Num, Num]\n'
+    cases = [(None, 'a:b c'), (None, 'a: b'), (None, 'ab'), ('Pair', 'a: b'), ('Pair', 'a:b')]
+    cases2 = [(None, 'a 1'), ('Two', '1 2'), ('Num', '7'), (None, 'a1')]
+    # reference: every description once, under names of its own
+    ref = {}
+    for key, texts in (('child1', [base1, child]), ('child2', [base2, child]), ('second2', [base2, second])):
+        mods = [rr.compile_grammar(t.replace('{p}', f'{tag}ref{key}_'))[0] for t in texts]
+        ref[key] = [outcome(mods[-1], e, t) for e, t in (cases2 if key == 'second2' else cases)]
+    p = f'{tag}hist_'
+    rr.compile_grammar(base1.replace('{p}', p))
+    c1, _ = rr.compile_grammar(child.replace('{p}', p))
+    rr.compile_grammar(base2.replace('{p}', p))                 # the name is used again
+    steps = []
+    try:
+        s2, _ = rr.compile_grammar(second.replace('{p}', p))        # created after: sees the new base
+        steps.append(('a grammar created after the name of its parent was used again', [outcome(s2, e, t) for e, t in cases2], ref['second2']))
+        c2, _ = rr.compile_grammar(child.replace('{p}', p))         # the same description again: as under fresh names with the new base
+        steps.append(('a description compiled again after the name of its parent was used again', [outcome(c2, e, t) for e, t in cases], ref['child2']))
+        steps.append(('the grammar created before the name of its parent was used again', [outcome(c1, e, t) for e, t in cases], ref['child1']))
+    except Exception as exc:      # noqa: BLE001
+        bad.append({'key': 'reuse|create', 'sig': 'name-reuse', 'kind': 'spec', 'what': f'after a name was used again, Grammar() raised {type(exc).__name__}: {str(exc)[:150]}'})
+    for label, got, want in steps:
+        n += len(got)
+        if got != want:
+            k = next(i for i in range(len(got)) if got[i] != want[i])
+            bad.append({'key': f'reuse|{label}', 'sig': 'name-reuse', 'kind': 'spec',
+                        'what': f'{label}: case {k} gives {got[k]}, the same descriptions under fresh names give {want[k]}'})
+    return bad, n
+
+
 def order_independence(seed):
     """creating and using modules in different orders; reusing a name; the parent before and after"""
     import realrun as rr
@@ -465,6 +508,9 @@ def order_independence(seed):
     got = rr.run_real_api(pb.parse, 'AB', 0, True)[0]
     if got[0] != 'V':
         bad.append({'key': 'order|dotted-child', 'sig': 'order|dotted-rule', 'kind': 'spec', 'what': f'the child p.sub does not parse "AB": {got}'})
+    b2, n2 = name_reuse_scenarios(f'c13nr{seed}', rr)
+    bad += b2
+    n += n2
     want_c = {'bu': 'V', 'bt': 'V', 'ba': 'V', 'bs': 'E', 'babu': 'V', 'bub': 'P'}
     for t, cls in want_c.items():
         got = rr.run_real_api(c.parse, t, 0, True)[0]
@@ -530,6 +576,26 @@ TEMPLATE_CHAINS.append(
      ['a 1', ' a 1', '12', 'ab cd', '', '1 a#']))
 
 
+# a Python section in front of an anonymous ignore declaration of the base (statements that are not rules do not count when
+# anonymous rules are numbered); a base rule that can never fail overridden by one that can
+TEMPLATE_CHAINS.append(
+    (['grammar {p}a\n```\ndef to_number(s):\n    return int(s)\n```\nstart = Item*\nItem = Num | Word\nNum = /[0-9]+/ |> `to_number`\nWord = /[a-z]+/\nignore / +/\n',
+      'grammar {p}b extends {p}a\noverride Word = /[A-Z]+/ | super.Word\n',
+      'grammar {p}c extends {p}b\n`1`\nignore /#/\nExtra = "x"\n'],
+     ['```\ndef to_number(s):\n    return int(s)\n```\nstart = Item*\nItem = Num | Word\nNum = /[0-9]+/ |> `to_number`\nWord = /[a-z]+/\nignore / +/\n',
+      '```\ndef to_number(s):\n    return int(s)\n```\nstart = Item*\nItem = Num | Word\nNum = /[0-9]+/ |> `to_number`\nWord = /[A-Z]+/ | /[a-z]+/\nignore / +/\n',
+      None],
+     [' ab  CD 12 ', 'ab', 'AB cd', '1 2', '', 'a#B']))
+TEMPLATE_CHAINS.append(
+    (['grammar {p}a\nstart = Item*\nItem = Num | Word\nNum = [Sign, Digits]\nMark = Sign | "!"\nSign = Opt("-" | "+")\nDigits = /[0-9]+/\nWord = /[a-z]+/\nignore / +/\n',
+      'grammar {p}b extends {p}a\noverride Sign = "-" | "+"\n',
+      'grammar {p}c extends {p}b\noverride Digits = /[0-9]/\n'],
+     ['start = Item*\nItem = Num | Word\nNum = [Sign, Digits]\nMark = Sign | "!"\nSign = Opt("-" | "+")\nDigits = /[0-9]+/\nWord = /[a-z]+/\nignore / +/\n',
+      'start = Item*\nItem = Num | Word\nNum = [Sign, Digits]\nMark = Sign | "!"\nSign = "-" | "+"\nDigits = /[0-9]+/\nWord = /[a-z]+/\nignore / +/\n',
+      'start = Item*\nItem = Num | Word\nNum = [Sign, Digits]\nMark = Sign | "!"\nSign = "-" | "+"\nDigits = /[0-9]/\nWord = /[a-z]+/\nignore / +/\n'],
+     ['12', '-12 ab', '+1 2', 'ab', '', '7', '- 3']))
+
+
 def _deep(n):
     body = '[Item, Item]'
     for _ in range(n):
@@ -575,6 +641,26 @@ def template_chains(seed):
                     bad.append({'key': f'tchain|{ci}|{li}|{t}', 'sig': f'tchain|{ci}|{li}', 'kind': 'spec',
                                 'what': f'template chain {ci}: parsing {t!r} through level {li} gives {a}, its flattening gives {b}'})
                     break
+            # every plain rule of the flattened grammar as an entry point of the level
+            for name in dir(flat):
+                if name.startswith('_'):
+                    continue
+                rb = getattr(flat, name)
+                if not (hasattr(rb, 'definition') and hasattr(rb, 'parse')) or '(' in str(rb.definition).split('=')[0]:
+                    continue
+                ra = getattr(mod, name, None)
+                if ra is None or not hasattr(ra, 'parse'):
+                    bad.append({'key': f'tchain|{ci}|{li}|{name}', 'sig': f'tchain|{ci}|{li}|entry', 'kind': 'spec',
+                                'what': f'template chain {ci}: rule {name} is not available at level {li}'})
+                    continue
+                for t in list(inputs) + ['!', '-', '+7']:
+                    a = rr.run_real_api(ra.parse, t, 0, True)[0]
+                    b = rr.run_real_api(rb.parse, t, 0, True)[0]
+                    n += 1
+                    if a != b and not (a[0] == b[0] == 'E'):
+                        bad.append({'key': f'tchain|{ci}|{li}|{name}|{t}', 'sig': f'tchain|{ci}|{li}|entry', 'kind': 'spec',
+                                    'what': f'template chain {ci}: {name}.parse({t!r}) at level {li} gives {a}, its flattening gives {b}'})
+                        break
     return bad, n
 
 
